@@ -20,11 +20,11 @@ import (
 var key = bytes.Repeat([]byte{0x24}, 32)
 
 type desc struct {
-	Part  int      `json:"part"`
-	Case  ss.Case  `json:"case"`
-	Edit  string   `json:"edit"`
-	Clean bool     `json:"clean"` // relay changed no byte in either direction
-	HS    *hsCase  `json:"hs,omitempty"`
+	Part  int     `json:"part"`
+	Case  ss.Case `json:"case"`
+	Edit  string  `json:"edit"`
+	Clean bool    `json:"clean"` // relay changed no byte in either direction
+	HS    *hsCase `json:"hs,omitempty"`
 }
 
 func wire(flag int, d []byte) []byte {
